@@ -546,7 +546,7 @@ Proof.
         rewrite Hnf, andb_false_r. reflexivity.
       * reflexivity.
     + intros i. rewrite Hc. unfold chk. cbn [set_procs r_adm]. fold (chk c1 i). rewrite E5.
-      destruct (Z.eqb_spec i j) as [Eij|]; [|reflexivity]. subst i. rewrite Ec.
+      destruct (Z.eqb_spec i j) as [Eij|]; [|reflexivity]. subst i. rewrite Eg. simpl snd.
       unfold tgt. destruct (Z.eqb j (r_me c)); [|destruct iso]; reflexivity.
     + intros k i Hf.
       assert (Hij : i <> j). { intros ->. unfold failed_b in Hf. rewrite Ea in Hf. discriminate. }
@@ -611,4 +611,458 @@ Proof.
   intros i. rewrite Ha. unfold checked_b. destruct (adm c i) as [s|] eqn:Ea.
   - rewrite (adm_in_keys c i s Ea). reflexivity.
   - rewrite andb_false_r. reflexivity.
+Qed.
+
+(* ====================================================================== *)
+(* E. cluster                                                               *)
+(* ====================================================================== *)
+
+(* ---- queues ---- *)
+Lemma last_ev_app_ev : forall k q k' st e nm,
+  last_ev k (q ++ [MEvent k' st e nm]) = if Z.eqb k' k then Some (st, e) else last_ev k q.
+Proof.
+  intros k q k' st e nm. induction q as [|m r IH]; simpl.
+  - destruct (Z.eqb k' k); reflexivity.
+  - rewrite IH. destruct (Z.eqb k' k); reflexivity.
+Qed.
+
+Lemma last_ev_cons_other : forall k m r,
+  (forall st e nm, m <> MEvent k st e nm) -> last_ev k (m :: r) = last_ev k r.
+Proof.
+  intros k m r H. simpl. destruct (last_ev k r); [reflexivity|].
+  destruct m as [k' st e nm| |]; try reflexivity.
+  destruct (Z.eqb_spec k' k); [|reflexivity]. subst. exfalso. eapply H. reflexivity.
+Qed.
+
+Lemma final_cons_ev : forall k k' st e nm r b,
+  final k (MEvent k' st e nm :: r) b = final k r (if Z.eqb k' k then Some (st, e) else b).
+Proof.
+  intros. unfold final. simpl. destruct (last_ev k r); [reflexivity|].
+  destruct (Z.eqb k' k); reflexivity.
+Qed.
+
+(* ---- snapshots ---- *)
+Lemma overlay_snapshot : forall T k v, NoDup (akeys T) ->
+  overlay_k (snapshot_of T) k v = match aget k T with Some t => Some t | None => v end.
+Proof.
+  induction T as [|[k0 [st e]] r IH]; intros k v Hn; simpl.
+  - reflexivity.
+  - inversion Hn as [|x l Hk Hr]; subst. rewrite (IH k _ Hr).
+    destruct (Z.eqb_spec k0 k) as [E|E].
+    + subst k0. rewrite Z.eqb_refl.
+      assert (aget k r = None) as -> by (apply aget_none_iff; exact Hk). reflexivity.
+    + destruct (Z.eqb_spec k k0); [congruence|]. reflexivity.
+Qed.
+
+(* ---- the notification queue scanned up to the first acceptable AUTHORIZATION ---- *)
+Inductive scan_res := Stopped (r : option (option tinfo)) | Cur (v : option tinfo).
+
+Fixpoint base_scan (i ct : Z) (ntf : list (Z * msg)) (k : Z) (v : option tinfo) : scan_res :=
+  match ntf with
+  | [] => Cur v
+  | (i', m) :: r =>
+      if Z.eqb i' i then
+        match m with
+        | MSnapshot tbl _ => base_scan i ct r k (overlay_k tbl k v)
+        | MAuth ok ts => if Z.ltb ct ts then Stopped (if ok then Some v else None) else base_scan i ct r k v
+        | MEvent _ _ _ _ => base_scan i ct r k v
+        end
+      else base_scan i ct r k v
+  end.
+
+Lemma base_app : forall i ct ntf q k v,
+  base_at_auth i ct (ntf ++ q) k v =
+  match base_scan i ct ntf k v with Stopped r => r | Cur v' => base_at_auth i ct q k v' end.
+Proof.
+  intros i ct ntf q k. induction ntf as [|[i' m] r IH]; intros v; simpl.
+  - reflexivity.
+  - destruct (Z.eqb i' i); [|apply IH].
+    destruct m as [k' st e nm|tbl nm|ok ts]; try apply IH.
+    destruct (Z.ltb ct ts); [reflexivity|apply IH].
+Qed.
+
+Lemma base_of_scan : forall i ct ntf k v,
+  base_at_auth i ct ntf k v = match base_scan i ct ntf k v with Stopped r => r | Cur _ => None end.
+Proof.
+  intros i ct ntf k v. rewrite <- (app_nil_r ntf) at 1. rewrite base_app.
+  destruct (base_scan i ct ntf k v); reflexivity.
+Qed.
+
+Lemma base_none_if_old : forall i ct ntf k v,
+  (forall i' ok ts, In (i', MAuth ok ts) ntf -> ts <= ct) -> base_at_auth i ct ntf k v = None.
+Proof.
+  intros i ct ntf k. induction ntf as [|[i' m] r IH]; intros v H; simpl.
+  - reflexivity.
+  - assert (Hr : forall i' ok ts, In (i', MAuth ok ts) r -> ts <= ct) by (intros; eapply H; right; eassumption).
+    destruct (Z.eqb i' i); [|apply IH; exact Hr].
+    destruct m as [k' st e nm|tbl nm|ok ts]; try (apply IH; exact Hr).
+    assert (ts <= ct) by (eapply H; left; reflexivity).
+    destruct (Z.ltb_spec ct ts); [lia|apply IH; exact Hr].
+Qed.
+
+Lemma base_app_other : forall i ct ntf q k v,
+  (forall i' m, In (i', m) q -> i' <> i) -> base_at_auth i ct (ntf ++ q) k v = base_at_auth i ct ntf k v.
+Proof.
+  intros i ct ntf q k v H. rewrite base_app, base_of_scan.
+  destruct (base_scan i ct ntf k v) as [r|v']; [reflexivity|].
+  clear ntf. revert v'. induction q as [|[i' m] r IH]; intros v'; simpl; [reflexivity|].
+  assert (i' <> i) by (eapply H; left; reflexivity).
+  destruct (Z.eqb_spec i' i); [contradiction|]. apply IH. intros; eapply H; right; eassumption.
+Qed.
+
+(* ---- well-formed clusters ---- *)
+Definition isnode (c : cluster) (j : Z) : Prop := exists n, aget j (c_nodes c) = Some n.
+
+Record node_wf (c : cluster) (i : Z) (n : cnode) : Prop := mkNW {
+  nw_ctx : rwf (cn_ctx n);
+  nw_truth : NoDup (akeys (cn_truth n));
+  nw_self : aget i (cn_out n) = None;
+  nw_out : forall j, j <> i -> isnode c j -> exists q, aget j (cn_out n) = Some q;
+  nw_auth : forall i' ok ts, In (i', MAuth ok ts) (cn_ntf n) -> ts < c_now c;
+  nw_chk : forall i', chk (cn_ctx n) i' < c_now c
+}.
+
+Definition cwf (c : cluster) : Prop := forall i n, aget i (c_nodes c) = Some n -> node_wf c i n.
+
+Lemma nodes_set : forall c x nx j,
+  aget j (c_nodes (set_node c x nx)) = if Z.eqb j x then Some nx else aget j (c_nodes c).
+Proof.
+  intros c x nx j. unfold set_node. cbn [c_nodes]. destruct (Z.eqb_spec j x) as [E|E].
+  - subst. apply aget_aset_same.
+  - apply aget_aset_other. exact E.
+Qed.
+
+Lemma nodes_tick : forall c, c_nodes (tick_clock c) = c_nodes c.
+Proof. reflexivity. Qed.
+
+Lemma isnode_set : forall c x nx j, isnode c x -> (isnode (set_node c x nx) j <-> isnode c j).
+Proof.
+  intros c x nx j [n0 Hx]. unfold isnode. rewrite nodes_set. destruct (Z.eqb_spec j x) as [E|E].
+  - subst. split; intros _; eauto.
+  - tauto.
+Qed.
+
+Lemma cwf_tick : forall c, cwf c -> cwf (tick_clock c).
+Proof.
+  intros c H i n E. destruct (H i n E) as [A B C D F G].
+  constructor; auto.
+  - intros i' ok ts Hi. cbn [tick_clock c_now]. pose proof (F i' ok ts Hi). lia.
+  - intros i'. cbn [tick_clock c_now]. pose proof (G i'). lia.
+Qed.
+
+Lemma cwf_set : forall c x nx nx', cwf c -> aget x (c_nodes c) = Some nx ->
+  rwf (cn_ctx nx') -> NoDup (akeys (cn_truth nx')) -> aget x (cn_out nx') = None ->
+  (forall j q, aget j (cn_out nx) = Some q -> exists q', aget j (cn_out nx') = Some q') ->
+  (forall i' ok ts, In (i', MAuth ok ts) (cn_ntf nx') -> ts < c_now c) ->
+  (forall i', chk (cn_ctx nx') i' < c_now c) ->
+  cwf (set_node c x nx').
+Proof.
+  intros c x nx nx' H Hx A B C D F G i n E. rewrite nodes_set in E.
+  assert (Hisn : forall j, isnode (set_node c x nx') j -> isnode c j).
+  { intros j. apply isnode_set. exists nx. exact Hx. }
+  destruct (Z.eqb_spec i x) as [Eix|Eix].
+  - inversion E; subst n i. constructor; auto.
+    intros j Hj Hn. destruct (nw_out _ _ _ (H x nx Hx) j Hj (Hisn j Hn)) as [q Hq]. eapply D. exact Hq.
+  - destruct (H i n E) as [A' B' C' D' F' G']. constructor; auto.
+Qed.
+
+(* ---- the pair invariant ---- *)
+(* CI: the last queued event of i about k is what i's Supervisor reports (as long as i queues for j).
+   PI: inside a window, what j will end up holding about (k, i) is what i's Supervisor reports. *)
+Definition pinv (nj ni : cnode) (j i : Z) : Prop :=
+  (adm (cn_ctx ni) j <> Some ISOLATED ->
+     forall k t, last_ev k (out_queue ni j) = Some t -> aget k (cn_truth ni) = Some t)
+  /\ (forall k b t, window_base nj i k = Some b -> aget k (cn_truth ni) = Some t ->
+        final k (out_queue ni j) b = Some t).
+
+Definition cpinv (c : cluster) : Prop :=
+  forall j i nj ni, aget j (c_nodes c) = Some nj -> aget i (c_nodes c) = Some ni -> pinv nj ni j i.
+
+Lemma pinv_frame : forall nj ni nj' ni' j i,
+  pinv nj ni j i ->
+  cn_truth ni' = cn_truth ni -> out_queue ni' j = out_queue ni j ->
+  (adm (cn_ctx ni) j = Some ISOLATED -> adm (cn_ctx ni') j = Some ISOLATED) ->
+  (forall k b, window_base nj' i k = Some b -> window_base nj i k = Some b) ->
+  pinv nj' ni' j i.
+Proof.
+  intros nj ni nj' ni' j i [CI PI] Ht Hq Ha Hw. split.
+  - intros Hn k t Hl. rewrite Ht. rewrite Hq in Hl. apply CI; [|exact Hl].
+    intros Hiso. apply Hn. apply Ha. exact Hiso.
+  - intros k b t Hb Hk. rewrite Hq. rewrite Ht in Hk. apply (PI k b t (Hw k b Hb) Hk).
+Qed.
+
+Lemma window_base_frame : forall nj nj' i k,
+  adm (cn_ctx nj') i = adm (cn_ctx nj) i -> chk (cn_ctx nj') i = chk (cn_ctx nj) i ->
+  cn_ntf nj' = cn_ntf nj -> rvinfo (cn_ctx nj') k i = rvinfo (cn_ctx nj) k i ->
+  window_base nj' i k = window_base nj i k.
+Proof. intros nj nj' i k Ha Hc Hn Hv. unfold window_base. rewrite Ha, Hc, Hn, Hv. reflexivity. Qed.
+
+Lemma out_queue_set_other : forall n j j' q, j' <> j -> out_queue (set_out n (aset j q (cn_out n))) j' = out_queue n j'.
+Proof. intros n j j' q H. unfold out_queue. cbn [set_out cn_out]. rewrite aget_aset_other by exact H. reflexivity. Qed.
+
+Lemma out_queue_set_same : forall n j q, out_queue (set_out n (aset j q (cn_out n))) j = q.
+Proof. intros n j q. unfold out_queue. cbn [set_out cn_out]. rewrite aget_aset_same. reflexivity. Qed.
+
+Lemma cpinv_tick : forall c, cpinv c -> cpinv (tick_clock c).
+Proof. intros c H. exact H. Qed.
+
+(* node x is replaced by a node with the same Supervisor table and the same outgoing queues *)
+Lemma node_update_pinv : forall c x nx nx',
+  cpinv c -> aget x (c_nodes c) = Some nx ->
+  cn_truth nx' = cn_truth nx -> cn_out nx' = cn_out nx ->
+  (forall j, adm (cn_ctx nx) j = Some ISOLATED -> adm (cn_ctx nx') j = Some ISOLATED) ->
+  (forall i ni k b, aget i (c_nodes c) = Some ni -> window_base nx' i k = Some b ->
+       window_base nx i k = Some b
+       \/ (forall t, aget k (cn_truth ni) = Some t -> final k (out_queue ni x) b = Some t)) ->
+  cpinv (set_node c x nx').
+Proof.
+  intros c x nx nx' H Hx Ht Ho Ha Hw j i nj' ni' Hj Hi.
+  rewrite nodes_set in Hj, Hi.
+  assert (Hq : forall y, out_queue nx' y = out_queue nx y) by (intros y; unfold out_queue; rewrite Ho; reflexivity).
+  destruct (Z.eqb_spec j x) as [Ejx|Ejx]; destruct (Z.eqb_spec i x) as [Eix|Eix].
+  - (* both sides are the updated node *)
+    inversion Hj; inversion Hi; subst nj' ni' j i.
+    destruct (H x x nx nx Hx Hx) as [CI PI]. split.
+    + intros Hn k t Hl. rewrite Ht. rewrite Hq in Hl. apply CI; [|exact Hl].
+      intros Hiso. apply Hn. apply Ha. exact Hiso.
+    + intros k b t Hb Hk. rewrite Hq. rewrite Ht in Hk.
+      destruct (Hw x nx k b Hx Hb) as [Hold|Hnew]; [apply (PI k b t Hold Hk)|apply Hnew; exact Hk].
+  - inversion Hj; subst nj' j.
+    destruct (H x i nx ni' Hx Hi) as [CI PI]. split; [exact CI|].
+    intros k b t Hb Hk.
+    destruct (Hw i ni' k b Hi Hb) as [Hold|Hnew]; [apply (PI k b t Hold Hk)|apply Hnew; exact Hk].
+  - inversion Hi; subst ni' i.
+    apply (pinv_frame nj' nx nj' nx' j x (H j x nj' nx Hj Hx) Ht (Hq j) (Ha j)). auto.
+  - apply (H j i nj' ni' Hj Hi).
+Qed.
+
+Lemma node_update_wf : forall c x nx ctx' ntf',
+  cwf c -> aget x (c_nodes c) = Some nx -> rwf ctx' ->
+  (forall i' ok ts, In (i', MAuth ok ts) ntf' -> ts < c_now c + 1) ->
+  (forall i', chk ctx' i' < c_now c + 1) ->
+  cwf (tick_clock (set_node c x (set_ntf (set_ctx nx ctx') ntf'))).
+Proof.
+  intros c x nx ctx' ntf' H Hx Hr Hn Hc.
+  change (tick_clock (set_node c x (set_ntf (set_ctx nx ctx') ntf')))
+    with (set_node (tick_clock c) x (set_ntf (set_ctx nx ctx') ntf')).
+  destruct (H x nx Hx) as [A B C D F G].
+  apply (cwf_set (tick_clock c) x nx); auto.
+  - apply cwf_tick. exact H.
+  - intros j q Hq. exists q. exact Hq.
+Qed.
+
+Lemma set_ntf_same : forall n, set_ntf n (cn_ntf n) = n.
+Proof. intros [a b c d]. reflexivity. Qed.
+
+(* ---------- TickFrom ---------- *)
+Lemma step_tick_from : forall c i0 j0, cwf c ->
+  exists c', cstep c (TickFrom i0 j0) = Ok c' /\ cwf c' /\ (cpinv c -> cpinv c').
+Proof.
+  intros c i0 j0 H. unfold cstep; cbv zeta.
+  destruct (aget j0 (c_nodes c)) as [nj|] eqn:Ej.
+  2:{ eexists. split; [reflexivity|]. split; [apply cwf_tick; exact H|auto]. }
+  destruct (H j0 nj Ej) as [A B C D F G].
+  destruct (rstep_tick (cn_ctx nj) i0 (c_now c) (c_now c) A) as [ctx' [E [Hr [Hme [Hv [Ha Hc]]]]]].
+  rewrite E. cbn [bind]. eexists. split; [reflexivity|]. split.
+  - rewrite <- (set_ntf_same (set_ctx nj ctx')). apply node_update_wf; auto.
+    + intros i' ok ts Hi. pose proof (F i' ok ts Hi). lia.
+    + intros i'. rewrite Hc. destruct (tick_starts (cn_ctx nj) i0 && Z.eqb i' i0); [lia|]. pose proof (G i'). lia.
+  - intros HP. apply cpinv_tick. apply (node_update_pinv c j0 nj); auto.
+    + intros j Hiso. cbn [set_ctx cn_ctx]. rewrite Ha, Hiso.
+      destruct (tick_starts (cn_ctx nj) i0 && Z.eqb j i0) eqn:Es; [|reflexivity].
+      apply andb_true_iff in Es. destruct Es as [Es Ee]. apply Z.eqb_eq in Ee. subst j.
+      unfold tick_starts in Es. rewrite Hiso in Es. discriminate.
+    + intros i ni k b Hi Hb. left.
+      destruct (tick_starts (cn_ctx nj) i0 && Z.eqb i i0) eqn:Es.
+      * exfalso. unfold window_base in Hb. cbn [set_ctx cn_ctx cn_ntf] in Hb. rewrite Ha, Hc, Es in Hb.
+        rewrite base_none_if_old in Hb; [discriminate|].
+        intros i' ok ts Hin. pose proof (F i' ok ts Hin). lia.
+      * rewrite <- Hb. symmetry. apply window_base_frame; cbn [set_ctx cn_ctx cn_ntf]; auto.
+        -- rewrite Ha, Es. reflexivity.
+        -- rewrite Hc, Es. reflexivity.
+Qed.
+
+(* ---------- ActivateAt ---------- *)
+Lemma step_activate : forall c j0, cwf c ->
+  exists c', cstep c (ActivateAt j0) = Ok c' /\ cwf c' /\ (cpinv c -> cpinv c').
+Proof.
+  intros c j0 H. unfold cstep; cbv zeta.
+  destruct (aget j0 (c_nodes c)) as [nj|] eqn:Ej.
+  2:{ eexists. split; [reflexivity|]. split; [apply cwf_tick; exact H|auto]. }
+  destruct (H j0 nj Ej) as [A B C D F G].
+  destruct (rstep_activate (cn_ctx nj) (c_now c)) as [ctx' [E [Hp [Hme [Ha Hc]]]]].
+  rewrite E. cbn [bind]. eexists. split; [reflexivity|].
+  assert (Hv : forall k i, rvinfo ctx' k i = rvinfo (cn_ctx nj) k i) by (intros; unfold rvinfo; rewrite Hp; reflexivity).
+  split.
+  - rewrite <- (set_ntf_same (set_ctx nj ctx')). apply node_update_wf; auto.
+    + unfold rwf. rewrite Hp. exact A.
+    + intros i' ok ts Hi. pose proof (F i' ok ts Hi). lia.
+    + intros i'. rewrite Hc. pose proof (G i'). lia.
+  - intros HP. apply cpinv_tick. apply (node_update_pinv c j0 nj); auto.
+    + intros j Hiso. cbn [set_ctx cn_ctx]. rewrite Ha. unfold checked_b. rewrite Hiso. reflexivity.
+    + intros i ni k b Hi Hb. left. rewrite <- Hb. unfold window_base. cbn [set_ctx cn_ctx cn_ntf].
+      rewrite Ha, Hc, Hv. unfold checked_b. destruct (adm (cn_ctx nj) i) as [[]|]; reflexivity.
+Qed.
+
+(* ---------- Fail ---------- *)
+Lemma step_fail : forall c j0 i0, cwf c ->
+  exists c', cstep c (Fail j0 i0) = Ok c' /\ cwf c' /\ (cpinv c -> cpinv c').
+Proof.
+  intros c j0 i0 H. unfold cstep; cbv zeta.
+  destruct (aget j0 (c_nodes c)) as [nj|] eqn:Ej.
+  2:{ eexists. split; [reflexivity|]. split; [apply cwf_tick; exact H|auto]. }
+  destruct (H j0 nj Ej) as [A B C D F G].
+  destruct (rstep_failure (cn_ctx nj) i0 (c_now c)) as [ctx' [E [Hp [Hme [Ha Hc]]]]].
+  rewrite E. cbn [bind]. eexists. split; [reflexivity|].
+  assert (Hv : forall k i, rvinfo ctx' k i = rvinfo (cn_ctx nj) k i) by (intros; unfold rvinfo; rewrite Hp; reflexivity).
+  split.
+  - rewrite <- (set_ntf_same (set_ctx nj ctx')). apply node_update_wf; auto.
+    + unfold rwf. rewrite Hp. exact A.
+    + intros i' ok ts Hi. pose proof (F i' ok ts Hi). lia.
+    + intros i'. rewrite Hc. pose proof (G i'). lia.
+  - intros HP. apply cpinv_tick. apply (node_update_pinv c j0 nj); auto.
+    + intros j Hiso. cbn [set_ctx cn_ctx]. rewrite Ha, Hiso.
+      destruct (is_active (cn_ctx nj) i0 && Z.eqb j i0) eqn:Es; [|reflexivity].
+      apply andb_true_iff in Es. destruct Es as [Es Ee]. apply Z.eqb_eq in Ee. subst j.
+      unfold is_active in Es. rewrite Hiso in Es. discriminate.
+    + intros i ni k b Hi Hb. left. rewrite <- Hb. unfold window_base. cbn [set_ctx cn_ctx cn_ntf].
+      rewrite Ha, Hc, Hv.
+      destruct (is_active (cn_ctx nj) i0 && Z.eqb i i0) eqn:Es; [|reflexivity].
+      exfalso. unfold window_base in Hb. cbn [set_ctx cn_ctx] in Hb. rewrite Ha, Es in Hb. discriminate.
+Qed.
+
+(* ---------- InvalidateAt ---------- *)
+Lemma step_invalidate : forall c j0 iso, cwf c ->
+  exists c', cstep c (InvalidateAt j0 iso) = Ok c' /\ cwf c' /\ (cpinv c -> cpinv c').
+Proof.
+  intros c j0 iso H. unfold cstep; cbv zeta.
+  destruct (aget j0 (c_nodes c)) as [nj|] eqn:Ej.
+  2:{ eexists. split; [reflexivity|]. split; [apply cwf_tick; exact H|auto]. }
+  destruct (H j0 nj Ej) as [A B C D F G].
+  destruct (rstep_invalidate_failed (cn_ctx nj) iso (c_now c) A) as [ctx' [E [Hr [Hme [Ha [Hc Hv]]]]]].
+  rewrite E. cbn [bind]. eexists. split; [reflexivity|]. split.
+  - rewrite <- (set_ntf_same (set_ctx nj ctx')). apply node_update_wf; auto.
+    + intros i' ok ts Hi. pose proof (F i' ok ts Hi). lia.
+    + intros i'. rewrite Hc. pose proof (G i'). lia.
+  - intros HP. apply cpinv_tick. apply (node_update_pinv c j0 nj); auto.
+    + intros j Hiso. cbn [set_ctx cn_ctx]. rewrite Ha. unfold failed_b. rewrite Hiso. reflexivity.
+    + intros i ni k b Hi Hb. left.
+      destruct (failed_b (cn_ctx nj) i) eqn:Ef.
+      * exfalso. unfold window_base in Hb. cbn [set_ctx cn_ctx] in Hb. rewrite Ha, Ef in Hb.
+        unfold inv_target in Hb. destruct (Z.eqb i (r_me (cn_ctx nj))); [discriminate|]. destruct iso; discriminate.
+      * rewrite <- Hb. symmetry. apply window_base_frame; cbn [set_ctx cn_ctx cn_ntf]; auto.
+        rewrite Ha, Ef. reflexivity.
+Qed.
+
+(* ---------- Notify ---------- *)
+Lemma step_notify : forall c j0, cwf c ->
+  exists c', cstep c (Notify j0) = Ok c' /\ cwf c' /\ (cpinv c -> cpinv c').
+Proof.
+  intros c j0 H. unfold cstep; cbv zeta.
+  destruct (aget j0 (c_nodes c)) as [nj|] eqn:Ej.
+  2:{ eexists. split; [reflexivity|]. split; [apply cwf_tick; exact H|auto]. }
+  destruct (H j0 nj Ej) as [A B C D F G].
+  destruct (cn_ntf nj) as [|[i0 m] rest] eqn:En.
+  { eexists. split; [reflexivity|]. split; [apply cwf_tick; exact H|auto]. }
+  assert (Frest : forall i' ok ts, In (i', MAuth ok ts) rest -> ts < c_now c + 1).
+  { intros i' ok ts Hi. pose proof (F i' ok ts (or_intror Hi)). lia. }
+  destruct m as [k0 st0 e0 nm0|tbl nm|ok ts].
+  - (* a publication never sits in this queue; total anyway *)
+    eexists. split; [reflexivity|]. split.
+    + replace (set_ntf nj rest) with (set_ntf (set_ctx nj (cn_ctx nj)) rest) by (destruct nj; reflexivity).
+      apply node_update_wf; auto. intros i'. pose proof (G i'). lia.
+    + intros HP. apply cpinv_tick. apply (node_update_pinv c j0 nj); auto.
+      intros i ni k b Hi Hb. left. rewrite <- Hb. unfold window_base. cbn [set_ntf cn_ctx cn_ntf]. rewrite En.
+      destruct (adm (cn_ctx nj) i) as [[]|]; try reflexivity.
+      simpl base_at_auth. destruct (Z.eqb i0 i); reflexivity.
+  - (* ALL_INFO *)
+    destruct (rstep_load_all (cn_ctx nj) i0 tbl nm (c_now c) A) as [ctx' [E [Hr [Hadm [Hme Hv]]]]].
+    rewrite E. cbn [bind]. eexists. split; [reflexivity|].
+    assert (Ha : forall i, adm ctx' i = adm (cn_ctx nj) i) by (intros; unfold adm; rewrite Hadm; reflexivity).
+    assert (Hc : forall i, chk ctx' i = chk (cn_ctx nj) i) by (intros; unfold chk; rewrite Hadm; reflexivity).
+    split.
+    + apply node_update_wf; auto. intros i'. rewrite Hc. pose proof (G i'). lia.
+    + intros HP. apply cpinv_tick. apply (node_update_pinv c j0 nj); auto.
+      * intros j Hiso. cbn [set_ntf set_ctx cn_ctx]. rewrite Ha. exact Hiso.
+      * intros i ni k b Hi Hb. left. rewrite <- Hb. unfold window_base. cbn [set_ntf set_ctx cn_ctx cn_ntf].
+        rewrite Ha, Hc, Hv, En. unfold checking_b.
+        destruct (Z.eqb_spec i i0) as [Ei|Ei].
+        -- subst i. destruct (adm (cn_ctx nj) i0) as [[]|] eqn:Ea; simpl; try reflexivity.
+           rewrite Z.eqb_refl. reflexivity.
+        -- rewrite andb_false_r. destruct (adm (cn_ctx nj) i) as [[]|]; try reflexivity.
+           simpl base_at_auth. destruct (Z.eqb_spec i0 i); [congruence|reflexivity].
+  - (* AUTHORIZATION *)
+    destruct (rstep_auth (cn_ctx nj) i0 ok ts (c_now c)) as [ctx' [E [Hp [Hme [Ha Hc]]]]].
+    rewrite E. cbn [bind]. eexists. split; [reflexivity|].
+    assert (Hv : forall k i, rvinfo ctx' k i = rvinfo (cn_ctx nj) k i) by (intros; unfold rvinfo; rewrite Hp; reflexivity).
+    split.
+    + apply node_update_wf; auto.
+      * unfold rwf. rewrite Hp. exact A.
+      * intros i'. rewrite Hc. pose proof (G i'). lia.
+    + intros HP. apply cpinv_tick. apply (node_update_pinv c j0 nj); auto.
+      * intros j Hiso. cbn [set_ntf set_ctx cn_ctx]. rewrite Ha, Hiso.
+        destruct (auth_accepted (cn_ctx nj) i0 ts && Z.eqb j i0) eqn:Es; [|reflexivity].
+        apply andb_true_iff in Es. destruct Es as [Es Ee]. apply Z.eqb_eq in Ee. subst j.
+        unfold auth_accepted, checking_b in Es. rewrite Hiso in Es. discriminate.
+      * intros i ni k b Hi Hb. left. rewrite <- Hb. unfold window_base. cbn [set_ntf set_ctx cn_ctx cn_ntf].
+        rewrite Ha, Hc, Hv, En. unfold auth_accepted, checking_b, auth_target.
+        destruct (Z.eqb_spec i i0) as [Ei|Ei].
+        -- subst i. rewrite andb_true_r.
+           destruct (adm (cn_ctx nj) i0) as [[]|] eqn:Ea; simpl; try reflexivity.
+           rewrite Z.eqb_refl. destruct (Z.ltb (chk (cn_ctx nj) i0) ts); [|reflexivity].
+           destruct ok; [reflexivity|]. destruct (Z.eqb i0 (r_me (cn_ctx nj))); reflexivity.
+        -- rewrite andb_false_r. destruct (adm (cn_ctx nj) i) as [[]|]; try reflexivity.
+           simpl base_at_auth. destruct (Z.eqb_spec i0 i); [congruence|reflexivity].
+Qed.
+
+(* ---------- SnapshotRead ---------- *)
+Lemma step_snapshot_read : forall c j0 i0, cwf c ->
+  exists c', cstep c (SnapshotRead j0 i0) = Ok c' /\ cwf c' /\ (cpinv c -> cpinv c').
+Proof.
+  intros c j0 i0 H. unfold cstep; cbv zeta.
+  destruct (aget j0 (c_nodes c)) as [nj|] eqn:Ej.
+  2:{ eexists. split; [reflexivity|]. split; [apply cwf_tick; exact H|auto]. }
+  destruct (aget i0 (c_nodes c)) as [ni0|] eqn:Ei0.
+  2:{ eexists. split; [reflexivity|]. split; [apply cwf_tick; exact H|auto]. }
+  destruct (valid_state (cn_ctx nj) i0) as [s|] eqn:Evs.
+  2:{ eexists. split; [reflexivity|]. split; [apply cwf_tick; exact H|auto]. }
+  destruct (H j0 nj Ej) as [A B C D F G].
+  destruct (H i0 ni0 Ei0) as [A0 B0 C0 D0 F0 G0].
+  set (ok := match adm (cn_ctx ni0) j0 with Some Node.ISOLATED => false | Some _ => true | None => false end).
+  set (q := if ok then [(i0, MSnapshot (snapshot_of (cn_truth ni0)) (c_now c)); (i0, MAuth true (c_now c))]
+            else [(i0, MAuth false (c_now c))]).
+  eexists. split; [reflexivity|]. split.
+  - replace (set_ntf nj (cn_ntf nj ++ q)) with (set_ntf (set_ctx nj (cn_ctx nj)) (cn_ntf nj ++ q)) by (destruct nj; reflexivity).
+    apply node_update_wf; auto.
+    + intros i' ok' ts Hi. apply in_app_iff in Hi. destruct Hi as [Hi|Hi].
+      * pose proof (F i' ok' ts Hi). lia.
+      * unfold q in Hi. destruct ok; simpl in Hi.
+        -- destruct Hi as [Hi|[Hi|[]]]; inversion Hi; subst. lia.
+        -- destruct Hi as [Hi|[]]; inversion Hi; subst. lia.
+    + intros i'. pose proof (G i'). lia.
+  - intros HP. apply cpinv_tick. apply (node_update_pinv c j0 nj); auto.
+    intros i ni k b Hi Hb.
+    unfold window_base in Hb |- *. cbn [set_ntf cn_ctx cn_ntf] in Hb.
+    destruct (adm (cn_ctx nj) i) as [[]|] eqn:Ea; try discriminate; try (left; exact Hb).
+    (* CHECKING *)
+    destruct (Z.eqb_spec i i0) as [Ei|Ei].
+    2:{ left. rewrite base_app_other in Hb; [exact Hb|].
+        intros i' m Hin. unfold q in Hin. destruct ok; simpl in Hin.
+        - destruct Hin as [Hin|[Hin|[]]]; inversion Hin; subst; auto.
+        - destruct Hin as [Hin|[]]; inversion Hin; subst; auto. }
+    subst i. rewrite Hi in Ei0. inversion Ei0; subst ni0. clear Ei0.
+    rewrite base_app in Hb. rewrite base_of_scan.
+    destruct (base_scan i0 (chk (cn_ctx nj) i0) (cn_ntf nj) k (rvinfo (cn_ctx nj) k i0)) as [r|v'].
+    { left. exact Hb. }
+    right. intros t Ht.
+    unfold q in Hb. destruct ok eqn:Eok.
+    2:{ simpl in Hb. rewrite Z.eqb_refl in Hb. destruct (Z.ltb (chk (cn_ctx nj) i0) (c_now c)); discriminate. }
+    simpl in Hb. rewrite Z.eqb_refl in Hb.
+    destruct (Z.ltb (chk (cn_ctx nj) i0) (c_now c)); [|discriminate].
+    inversion Hb; subst b. clear Hb.
+    rewrite (overlay_snapshot _ k v' B0), Ht.
+    destruct (HP j0 i0 nj ni Ej Hi) as [CI _].
+    unfold final. destruct (last_ev k (out_queue ni j0)) as [t'|] eqn:El; [|reflexivity].
+    rewrite (CI) with (k := k) (t := t') in Ht; [inversion Ht; reflexivity| |exact El].
+    unfold ok in Eok. intros Hiso. rewrite Hiso in Eok. discriminate.
 Qed.
